@@ -81,6 +81,13 @@ func (t *tree) textOrTag(token item, until []itemType) (node ast.Node, halt bool
 		return nil, true
 	}
 
+	// A lexical error or a premature end of input is reported here, while the
+	// offending token is still the current one (the lexer has closed its channel:
+	// reading on would only yield zero tokens at position 0).
+	if token.typ == itemError || token.typ == itemEOF {
+		t.unexpected(token, "input")
+	}
+
 	// 2. The until token is a command, e.g. {else} {/template}
 	var token2 = t.next()
 	if token.typ == itemLeftDelim && isOneOf(token2.typ, until) {
